@@ -403,6 +403,9 @@ impl LinSearch<'_> {
 // ---------------------------------------------------------------------------------------------
 // execution of one schedule
 
+/// verdict of an execution that ended because an operation panicked inside a task
+static PANIC_FAIL: StdMutex<Option<Failure>> = StdMutex::new(None);
+
 struct Shared<K: SimKey> {
     keys: Vec<K>,
     contents: Vec<Arc<Vec<u8>>>,
@@ -626,7 +629,16 @@ fn exec_cop<K: SimKey>(sh: &Shared<K>, cas: &Cas<K>, stats: Option<&OrphanStats<
     let resp = stamp();
     match r {
         Ok(res) => sh.hist.lock().unwrap().push(HEv { task, op: op.clone(), inv, resp, res }),
-        Err(p) => sh.flag(fail(&["C15", "C05", "C04"], "panic", opi, format!("{label} panicked: {}", panic_msg(p)))),
+        Err(p) => {
+            // no call may panic; a panicking read also speaks for C17 ("no request panics")
+            let props: &[&str] = if matches!(op, COp::GetRange { .. } | COp::GetSize { .. } | COp::Reader { .. }) { &["C15", "C05", "C04", "C17"] } else { &["C15", "C05", "C04"] };
+            sh.flag(fail(props, "panic", opi, format!("{label} panicked: {}", panic_msg(p))));
+            // shuttle does not support a task that goes on after a panic (locks released while
+            // unwinding are closed for good and lose mutual exclusion): the execution ends here, the
+            // shuttle way. The verdict travels in PANIC_FAIL; run_case_k picks it up.
+            *PANIC_FAIL.lock().unwrap() = sh.failure.lock().unwrap().take();
+            std::panic::resume_unwind(Box::new("casim: an operation panicked".to_string()));
+        }
     }
 }
 
@@ -833,6 +845,7 @@ fn run_case_k<K: SimKey>(case: &Case) -> Outcome {
         return out;
     };
     parking_lot::set_observer(Some(lock_observer));
+    *PANIC_FAIL.lock().unwrap_or_else(|e| e.into_inner()) = None;
     let pre = match build_prestate::<K>(case, spec) {
         Ok(p) => Arc::new(p),
         Err(e) => {
@@ -888,7 +901,18 @@ fn run_case_k<K: SimKey>(case: &Case) -> Outcome {
         let _ = interpose::uninstall();
         interpose::set_active(false);
         let s = shared.lock().unwrap();
-        if msg.contains("deadlock") {
+        let stashed = PANIC_FAIL.lock().unwrap_or_else(|e| e.into_inner()).take();
+        if let Some(mut f) = stashed {
+            res.executions += 1;
+            if is_own(&case.property, &f) {
+                if !f.props.iter().any(|p| *p == case.property) {
+                    f.props.push(case.property.clone());
+                }
+                res.violation = Some((f, s.choices.clone(), format!("{:?}", s.strategy)));
+            } else if res.foreign.is_none() {
+                res.foreign = Some(f);
+            }
+        } else if msg.contains("deadlock") {
             res.violation = Some((
                 fail(&["C15"], "deadlock", 0, format!("no runnable task while some are unfinished: {}", msg.lines().next().unwrap_or(""))),
                 s.choices.clone(),
